@@ -86,6 +86,20 @@ Theorem C02_ema_binary64_within_tau : forall p s xs M, ema_new FOps p = Ok s -> 
      (1 / 10 ^ 12 + 1 / 10 ^ 15 * (INR (j + 1) * R_sqrt.sqrt (INR (j + 1)))) * M)%R.
 Proof. exact ema_float_within_tau. Qed.
 
+(* ... and for AverageTrueRange (scalar path): TrueRange rounds once, the float EMA is within 32 t u M' of the real EMA of its float
+   inputs, and the real EMA is 1-Lipschitz in its inputs: within (96 t + 3) * 2^-53 * M <= tau(t) * M of EMA(|x_t - x_{t-1}|) *)
+From TA Require Import Proofs.XCov Proofs.FloatAtr.
+Theorem C02_atr_binary64_within_tau : forall p a xs M, atr_new FOps p = Ok a -> (p < 9007199254740992)%N ->
+  (1 <= M)%R -> (3 * M <= bpow radix2 990)%R -> Forall (okin M) xs -> (INR (length xs) * u <= / 256)%R ->
+  let outs := atr_outs FOps a xs in
+  let reals := ema_stream (kreal p) (tr_stream (map FR xs)) in
+  length outs = length xs /\
+  forall j, (j < length xs)%nat ->
+    finF (nth j outs 0%float) /\
+    (Rabs (FR (nth j outs 0%float) - nth j reals 0) <=
+     (1 / 10 ^ 12 + 1 / 10 ^ 15 * (INR (j + 1) * R_sqrt.sqrt (INR (j + 1)))) * M)%R.
+Proof. exact atr_float_within_tau. Qed.
+
 From Coq Require Import List Floats.
 From TA Require Import Generic FloatInst XQ Run2 Par.Hom Par.Var Par.Oracle.
 (* the T2 oracle (exact rational run, evaluated by the checks) is the image of the exact real run these
